@@ -2,6 +2,6 @@ use ark_ff::fields::{Fp256, MontBackend, MontConfig};
 
 #[derive(MontConfig)]
 #[modulus = "115792089210356248762697446949407573530086143415290314195533631308867097853951"]
-#[generator = "2"]
+#[generator = "6"]
 pub struct FqConfig;
 pub type Fq = Fp256<MontBackend<FqConfig, 4>>;
